@@ -56,7 +56,11 @@ global rule gl { condition: filesize < 10000000 }
 '''
 
 
-PROBE = PROBE.replace("PADSTRINGS", " ".join('$p%d = "pad%02dq"' % (i, i) for i in range(70)))
+# 200 strings in front of the limit-hitting ones and 150 data-dependent rules after everything else: per-scan bitmaps
+# (rule flags, disabled strings, required evaluation) span several 64-bit words, whichever count they are sized by
+PROBE = PROBE.replace("PADSTRINGS", " ".join('$p%d = "pad%03dq"' % (i, i) for i in range(200)))
+PROBE += "".join("rule zpad%d { condition: filesize %% 11 == %d or uint8(%d) == 0x%02x }\n" % (i, i % 11, i % 5, (0x4d, 0x7f, 0x61, 0x78)[i % 4])
+                 for i in range(150))
 
 
 def text_buffer(rng, with_matches):
@@ -148,13 +152,32 @@ def build_case(seed_cid):
             mode = "mem"
             script = rng.choice(["-", "t6:e", "t6:c"])
             kind = "too-many-matches" + script
+        if kind == "plain" and rng.random() < 0.08:
+            # memory of a live (idle) helper process; often ended early by the callback, which must not leave
+            # SCAN_FLAGS_PROCESS_MEMORY or any other per-scan state behind
+            mode = "proc"
+            if rng.random() < 0.6:
+                script = "%d:%s" % (rng.randint(0, 30), rng.choice("ae"))
+            kind = "process" + ("-callback-" + script[-1] if script != "-" else "")
+        if mode == "blocks" and rng.random() < 0.4:
+            # iterator without a file_size callback: `filesize` must be undefined, whatever the scanner saw before
+            opts = ("" if opts == "-" else opts) + "z"
+            kind += "+nofilesize"
         steps.append((k, mode, flags, timeout, script, part, notready, maxcalls, opts, kind))
     sizes = {}
+    cur_flags = None
     for (k, mode, flags, timeout, script, part, notready, maxcalls, opts, kind) in steps:
         if mode == "blocks":
             part = "@%d" % (1 + (len(notready) % 4))
         tail = "%s %s %s %s" % ("-" if part in ("-",) else part, notready, maxcalls, opts)
-        lines.append("scan s0 %s %d %d %d %s %s" % (mode, slots[k], flags, timeout, script, tail))
+        # half of the time the reused scanner is NOT told its flags again (a fresh scanner has to be told once): flags set
+        # by an earlier call must still be in force, and nothing else (e.g. a process-memory bit) may have been added
+        if cur_flags is not None and rng.random() < 0.5:
+            flags = cur_flags
+            lines.append("scan s0 %s %d - %d %s %s" % (mode, slots[k], timeout, script, tail))
+        else:
+            lines.append("scan s0 %s %d %d %d %s %s" % (mode, slots[k], flags, timeout, script, tail))
+        cur_flags = flags
         lines.append("snew 0 1")
         for d in sdefs_upto(lines, sdefs):
             lines.append("sdef 1 " + d)
